@@ -259,22 +259,61 @@ impl QueryFilter {
         }
     }
 
-    /// Extract predicates from an expression recursively
+    /// Extract predicates from an expression recursively.
+    ///
+    /// Top-level conjuncts become separate entries (all of them must hold); everything below
+    /// keeps its AND / OR structure.
     fn extract_predicates_from_expr(expr: &Expr, predicates: &mut Vec<ColumnPredicate>) {
         match expr {
-            Expr::BinaryOp { left, op, right } => {
-                if let Some(pred) = Self::try_extract_comparison(left, op, right) {
-                    predicates.push(pred);
-                }
-                if matches!(op, BinaryOperator::And | BinaryOperator::Or) {
-                    Self::extract_predicates_from_expr(left, predicates);
-                    Self::extract_predicates_from_expr(right, predicates);
-                }
+            Expr::BinaryOp {
+                left,
+                op: BinaryOperator::And,
+                right,
+            } => {
+                Self::extract_predicates_from_expr(left, predicates);
+                Self::extract_predicates_from_expr(right, predicates);
             }
             Expr::Nested(inner) => {
                 Self::extract_predicates_from_expr(inner, predicates);
             }
-            _ => {}
+            other => {
+                if let Some(pred) = Self::expr_to_predicate(other) {
+                    predicates.push(pred);
+                }
+            }
+        }
+    }
+
+    /// Convert a boolean expression into a predicate tree, or None if it (or, for OR, any of
+    /// its branches) is not a supported form.
+    fn expr_to_predicate(expr: &Expr) -> Option<ColumnPredicate> {
+        match expr {
+            Expr::Nested(inner) => Self::expr_to_predicate(inner),
+            Expr::BinaryOp {
+                left,
+                op: BinaryOperator::And,
+                right,
+            } => match (
+                Self::expr_to_predicate(left),
+                Self::expr_to_predicate(right),
+            ) {
+                (Some(l), Some(r)) => Some(ColumnPredicate::And(Box::new(l), Box::new(r))),
+                // An unsupported conjunct is not applied; the supported one still is
+                (Some(pred), None) | (None, Some(pred)) => Some(pred),
+                (None, None) => None,
+            },
+            Expr::BinaryOp {
+                left,
+                op: BinaryOperator::Or,
+                right,
+            } => {
+                // A row matches if either branch matches; both must be evaluable
+                let l = Self::expr_to_predicate(left)?;
+                let r = Self::expr_to_predicate(right)?;
+                Some(ColumnPredicate::Or(Box::new(l), Box::new(r)))
+            }
+            Expr::BinaryOp { left, op, right } => Self::try_extract_comparison(left, op, right),
+            _ => None,
         }
     }
 
